@@ -119,3 +119,61 @@ package chain
 //@   ensures forall q string :: q != balKey(self, str(addr)) ==> has(gmap("vis", mu), q) == old(has(gmap("vis", mu), q)) && gmap("vis", mu)[q] == old(gmap("vis", mu)[q])
 //@   ensures old(balOf(gmap("vis", mu), balKey(self, str(addr)))) + amount > MAX ==> err != nil
 //@   ensures state.stok(mu) && old(balOf(gmap("vis", mu), balKey(self, str(addr)))) + amount <= MAX ==> err == nil
+
+// ---- C14: the unit estimate used for MaxFee vs the units the signed transaction consumes ----
+//@ func Action.Bytes
+//@   pure
+//@ func Action.ComputeUnits
+//@   pure
+//@ func Action.StateKeys
+//@   noframe
+//@ func AuthFactory.MaxUnits
+//@   pure
+//@ func AuthFactory.Address
+//@   pure
+//@ func Rules.GetBaseComputeUnits
+//@   pure
+//@ func Rules.GetSponsorStateKeysMaxChunks
+//@   noframe
+//@ func Rules.GetStorageKeyReadUnits
+//@   pure
+//@ func Rules.GetStorageKeyAllocateUnits
+//@   pure
+//@ func Rules.GetStorageKeyWriteUnits
+//@   pure
+//@ func Rules.GetStorageValueReadUnits
+//@   pure
+//@ func Rules.GetStorageValueAllocateUnits
+//@   pure
+//@ func Rules.GetStorageValueWriteUnits
+//@   pure
+
+// canoto wire size of one length-delimited field: tag byte, varint of the length, the bytes
+//@ spec func varintLen(x int) int = ite(x < 128, 1, ite(x < 16384, 2, ite(x < 2097152, 3, ite(x < 268435456, 4, ite(x < 34359738368, 5, ite(x < 4398046511104, 6, ite(x < 562949953421312, 7, ite(x < 72057594037927936, 8, ite(x < 9223372036854775808, 9, 10)))))))))
+//@ spec func fieldSize(n int) int = 1 + varintLen(n) + n
+// what the first n actions contribute to the serialized transaction (one repeated-bytes field each)
+// and to compute
+//@ spec rec func actWire(acts []Action, n int) int = ite(n <= 0, 0, actWire(acts, n - 1) + fieldSize(len(Action.Bytes(acts[n - 1]))))
+//@ spec rec func actCompute(acts []Action, n int, r Rules) int = ite(n <= 0, 0, actCompute(acts, n - 1, r) + Action.ComputeUnits(acts[n - 1], r))
+
+// the size of the signed transaction on the wire (trusted canoto layout of SerializeTx: Base as an
+// embedded message field when non-empty, one repeated-bytes field per action, Auth when non-empty)
+//@ spec func txWire(baseSize int, acts []Action, n int, authLen int) int = ite(baseSize != 0, fieldSize(baseSize), 0) + actWire(acts, n) + ite(authLen != 0, fieldSize(authLen), 0)
+// the bandwidth estimate as a function of the action list and the auth factory's declared maximum
+//@ spec func estBandwidth(acts []Action, n int, authMax int) int = MaxBaseSize + 1 + actWire(acts, n) + authMax
+
+// C14 (bandwidth): for every action list, every base (its canoto size is at most 54: 11 for the
+// timestamp varint field, 34 for the chain id, 9 for the fixed-width fee) and every auth no longer
+// than the factory's declared maximum, the estimate is at least the wire size of the signed transaction
+//@ lemma estimate_covers_size props C14 reveal estBandwidth txWire fieldSize varintLen: forall acts []Action, n int, bs int, al int, ab int :: 0 <= n && 0 <= bs && bs <= 54 && 0 <= al && al <= ab ==> estBandwidth(acts, n, ab) >= txWire(bs, acts, n, al)
+
+//@ func EstimateUnits props C14
+//@   requires len(actions) <= 256 && fst(AuthFactory.MaxUnits(authFactory)) <= 4294967296
+//@   reveal actWire actCompute estBandwidth fieldSize varintLen
+//@   loop 1 invariant 0 <= actWire(actions, idx1) && actWire(actions, idx1) <= idx1 * 140737488355400
+//@   loop 1 invariant 0 <= idx1 && idx1 <= len(actions) && bandwidth == MaxBaseSize + 1 + actWire(actions, idx1) && !isnil(computeOp)
+//@   loop 1 invariant computeOp.err == nil ==> computeOp.v == Rules.GetBaseComputeUnits(r) + actCompute(actions, idx1, r)
+//@   loop 1 invariant computeOp.err != nil ==> Rules.GetBaseComputeUnits(r) + actCompute(actions, idx1, r) > MAX
+//@   loop 2 invariant !isnil(readsOp) && !isnil(allocatesOp) && !isnil(writesOp)
+//@   ensures err == nil ==> result0[0] == estBandwidth(actions, len(actions), fst(AuthFactory.MaxUnits(authFactory)))
+//@   ensures err == nil ==> result0[1] == Rules.GetBaseComputeUnits(r) + actCompute(actions, len(actions), r) + snd(AuthFactory.MaxUnits(authFactory))
